@@ -42,7 +42,7 @@ FLOORS = {"quick": {"steps_compared": 2500, "digests_compared": 2500,
                     "mutations": 300, "import_steps": 200},
           "thorough": {"steps_compared": 120000, "digests_compared": 150000,
                        "mutations": 20000, "import_steps": 15000}}
-N_SEQ = {"quick": 1280, "thorough": 48000}
+N_SEQ = {"quick": 2560, "thorough": 48000}
 KINDS = ["valid", "valid", "syntax", "matching", "conversion", "sectiondt",
          "import", "import", "override", "mutate", "mutate"]
 
